@@ -120,6 +120,7 @@ type Client struct {
 	CloseStep     int
 	UpgradeStatus int
 	upgradeJudged bool
+	stallCh       chan struct{} // non-nil while the client does not read
 	// Tainted is set when the connection ran into known finding F-3 (an
 	// unsubscribe accepted on a provisional count): from then on the frame-driven
 	// model and the gateway legitimately disagree about this connection.
@@ -175,6 +176,14 @@ func (c *Client) connect() {
 
 func (c *Client) reader(ws *websocket.Conn) {
 	for {
+		// a stalled client does not read (fault stall_client): the gateway's
+		// writes to it block
+		c.mu.Lock()
+		wait := c.stallCh
+		c.mu.Unlock()
+		if wait != nil {
+			<-wait
+		}
 		_, b, err := ws.ReadMessage()
 		if err != nil {
 			c.mu.Lock()
@@ -185,6 +194,25 @@ func (c *Client) reader(ws *websocket.Conn) {
 		c.mu.Lock()
 		c.inbox = append(c.inbox, string(b))
 		c.mu.Unlock()
+	}
+}
+
+// stall makes the client stop reading; resume lets it go on.
+func (c *Client) stall() {
+	c.mu.Lock()
+	if c.stallCh == nil {
+		c.stallCh = make(chan struct{})
+	}
+	c.mu.Unlock()
+}
+
+func (c *Client) resume() {
+	c.mu.Lock()
+	ch := c.stallCh
+	c.stallCh = nil
+	c.mu.Unlock()
+	if ch != nil {
+		close(ch)
 	}
 }
 
